@@ -150,6 +150,13 @@ pub fn build(p: CP) -> Scenario<Arc<CS>> {
                 *s.sig_only.lock().unwrap() = Some(a);
                 *s.raw.lock().unwrap() = Some(b);
             }
+            5 => {
+                // a signal nobody else uses: registered, given back completely, registered again
+                let id = unsafe { reg::register(S2, || ()) }.unwrap();
+                reg::unregister(id);
+                let id = unsafe { reg::register(S2, || ()) }.unwrap();
+                reg::unregister(id);
+            }
             4 => {
                 // dropping the last owner of an instance whose SignalsInfo is already gone
                 let h = s.orphan_handle.lock().unwrap().take();
@@ -164,15 +171,15 @@ pub fn build(p: CP) -> Scenario<Arc<CS>> {
                 *s.raw.lock().unwrap() = Some(b);
             }
         }),
-        nest_signals: vec![S1],
+        nest_signals: if mutator == 5 { vec![S2, S1] } else { vec![S1] },
         max_nest: 2,
     };
     let n = p.deliveries;
     let d = ThreadSpec {
         name: "D",
         body: Box::new(move |_s: &Arc<CS>| {
-            for _ in 0..n {
-                sched::raise(S1);
+            for k in 0..n {
+                sched::raise(if mutator == 5 && k % 2 == 0 { S2 } else { S1 });
             }
         }),
         nest_signals: vec![],
@@ -217,7 +224,7 @@ pub fn build(p: CP) -> Scenario<Arc<CS>> {
     };
     Scenario {
         name: p.name.to_string(),
-        opts: Opts { stale_reads: false, stale_depth: 2, max_spurious: 0, horizon: 60_000, log_ops: false, log_handler_ops: false, reduce: true, no_discipline: false, nest_value_t1: 0, post_points: false, no_race_check: false, start_points: true },
+        opts: Opts { stale_reads: false, stale_depth: 2, max_spurious: 0, horizon: 60_000, log_ops: false, log_handler_ops: false, reduce: true, no_discipline: false, nest_value_t1: 0, post_points: false, no_race_check: false, start_points: true, endurance: 0 },
         signals: vec![S1, S2],
         setup: Box::new(setup),
         threads: vec![m, d],
@@ -239,7 +246,7 @@ pub fn scenarios(tier: Tier) -> Vec<Item> {
     // few operations passes while anything that waits or loops does not
     let steps = 3 * (8 + 3 + 2 + 14);
     let mut v = Vec::new();
-    for (mi, mname) in ["registry", "iter_new_add_drop", "scans_and_recv", "instance_drop", "last_handle_drop"].iter().enumerate() {
+    for (mi, mname) in ["registry", "iter_new_add_drop", "scans_and_recv", "instance_drop", "last_handle_drop", "reregister_cycle"].iter().enumerate() {
         for full in [false, true] {
             if q && full && mi != 2 {
                 continue;
